@@ -555,12 +555,128 @@ fn depth_sweep() -> Sweep {
     )
 }
 
+// The occurs check through transparent definitions. The context ends in a group of one or two type
+// definitions of which one contains the hole (`t = ?h -> int`, `t = int -> ?h`, `t = (x : ?h) -> ?h`,
+// `t = ?h`) and the other, if any, is an alias of it (`u = t`, before or after it); the hole is unified
+// with the *name* of a definition (or with a type built from it), in both argument orders. The name
+// contains no hole, its definition does, and the solution recorded is the name's weak-head normal form:
+// Oracle: no panic, context restored, and — when unify answers true — following the recorded solutions
+// from the definitions of the context and from the two terms terminates (no cell is solved by a term
+// that contains that cell). A definition that merely comes to mention its own *name* (`t = (t -> int)
+// -> int` after `?h := t -> int`) is not judged: the solution does not contain the hole.
+fn context_occurs_sweep() -> Sweep {
+    // (prefix parameters, group layout 0: [t] 1: [t, u = t] 2: [u = t, t], shape of t's definition, problem, order)
+    const SHAPES: usize = 4;
+    const PROBLEMS: usize = 5;
+    let total = (2 * 3 * SHAPES * PROBLEMS * 2) as u64;
+    let build = move |idx: u64| {
+        let mut i = idx as usize;
+        let swap = i % 2 == 1;
+        i /= 2;
+        let problem = i % PROBLEMS;
+        i /= PROBLEMS;
+        let shape = i % SHAPES;
+        i /= SHAPES;
+        let layout = i % 3;
+        i /= 3;
+        let prefix = i % 2;
+        (prefix, layout, shape, problem, swap)
+    };
+    Sweep::new(
+        "occurs check through the definitions of the context (a hole unified with the name of a definition that contains it)",
+        total,
+        move |idx| {
+            let (prefix, layout, shape, problem, swap) = build(idx);
+            let x: Rc<str> = Rc::from("x");
+            let h = |shift: usize| M::Hole(0, shift);
+            let pi = |a: M, b: M| M::Pi(x.clone(), false, rc(a), rc(b));
+            let t_def = match shape {
+                0 => pi(h(0), M::Int),
+                1 => pi(M::Int, h(1)),
+                2 => pi(h(0), h(1)),
+                _ => h(0),
+            };
+            let g = if layout == 0 { 1 } else { 2 };
+            let len = prefix + g;
+            // position of t and u in the context (0 = outermost)
+            let (t_pos, u_pos) = match layout {
+                0 => (prefix, usize::MAX),
+                1 => (prefix, prefix + 1),
+                _ => (prefix + 1, prefix),
+            };
+            let var = |pos: usize| M::Var(Rc::from(if pos == t_pos { "t" } else { "u" }), len - 1 - pos);
+            let mut cells: Cells = HashMap::new();
+            let mut dc: Vec<Option<(Rc<crate::term::Term<'static>>, usize)>> = vec![];
+            for _ in 0..prefix {
+                dc.push(None);
+            }
+            let mut defs_m: Vec<(usize, M)> = vec![];
+            for j in 0..g {
+                let pos = prefix + j;
+                let d = if pos == t_pos { t_def.clone() } else { var(t_pos) };
+                defs_m.push((pos, d.clone()));
+                dc.push(Some((Rc::new(to_real(&d, &mut cells)), g - j)));
+            }
+            let target = if u_pos != usize::MAX && problem % 2 == 1 { var(u_pos) } else { var(t_pos) };
+            let (a, b) = match problem {
+                0 | 1 => (h(0), target),
+                2 | 3 => (pi(h(0), M::Int), target),
+                _ => (h(0), pi(target, M::Int)),
+            };
+            let (ra, rb) = (to_real(&a, &mut cells), to_real(&b, &mut cells));
+            let describe = || {
+                let ctx: Vec<String> = (0..prefix).map(|_| "a : type".to_owned()).chain(defs_m.iter().map(|(pos, d)| format!("{} = {}", if *pos == t_pos { "t" } else { "u" }, d.show()))).collect();
+                format!("unify({}, {}){} under the context [{}]", a.show(), b.show(), if swap { " (arguments swapped)" } else { "" }, ctx.join("; "))
+            };
+            // does following the recorded solutions from any definition of the context or from either
+            // term come back to a cell already being followed?
+            let cell_cycle = |dc: &Vec<Option<(Rc<crate::term::Term<'static>>, usize)>>| -> bool {
+                let mut mir = Mirror::new();
+                for (d, _) in dc.iter().flatten() {
+                    mir.mirror(d);
+                }
+                mir.mirror(&ra);
+                mir.mirror(&rb);
+                mir.cyclic
+            };
+            count!("unify_calls");
+            count!("evaluations");
+            count!("context_occurs_problems");
+            let base = dc.len();
+            let r = if swap { bind::guard(|| crate::unifier::unify(&rb, &ra, &mut dc)) } else { bind::guard(|| crate::unifier::unify(&ra, &rb, &mut dc)) };
+            if dc.len() != base {
+                violation("context-not-restored", &describe(), &format!("{base} entries"), &format!("{}", dc.len()));
+                return;
+            }
+            match r {
+                Err(m) => violation("unify-panic", &describe(), "a verdict", &m),
+                Ok(false) => {
+                    count!("unify_false");
+                    count!("context_occurs_refused");
+                    count!("nontrivial");
+                }
+                Ok(true) => {
+                    count!("unify_true");
+                    if cell_cycle(&dc) {
+                        let sol = cells.get(&0).and_then(|c| c.borrow().clone()).map(|t| mirror(&t).show()).unwrap_or_default();
+                        violation("cyclic-solution", &describe(), "false, or a solution that does not contain its own hole (the definition the name stands for contains it)", &format!("true with ?0 := {sol}"));
+                    } else {
+                        count!("context_occurs_acyclic_success");
+                        count!("nontrivial");
+                    }
+                }
+            }
+        },
+        move |idx| format!("{:?}", build(idx)),
+    )
+}
+
 impl Prop for C12 {
     fn id(&self) -> &'static str {
         "C12"
     }
     fn sweeps(&self, tier: Tier) -> Vec<Sweep> {
-        vec![punch_sweep(tier), pairs_sweep(tier), crate::props::c18::unify_under_context_sweep(tier), depth_sweep()]
+        vec![punch_sweep(tier), pairs_sweep(tier), crate::props::c18::unify_under_context_sweep(tier), depth_sweep(), context_occurs_sweep()]
     }
     fn evidence(&self, tier: Tier) -> EvidenceSpec {
         EvidenceSpec {
